@@ -99,6 +99,7 @@ type n3Signer struct {
 	g     *c33Gen
 	verif []byte
 	ok    bool
+	bad   string // shape of the chain's refusal (n3BadModes)
 }
 
 type n3Pub []byte
@@ -113,7 +114,7 @@ func (s n3Signer) Sign(data []byte) ([]byte, error) {
 	invoc := make([]byte, 24)
 	s.g.r.Read(invoc)
 	h := sha256.Sum256(data)
-	s.g.e.n3ok[string(invoc)+string(s.verif)] = n3Witness{ok: s.ok, acc: hash.Hash160(s.verif), checkData: true, dataHash: h}
+	s.g.e.n3ok[string(invoc)+string(s.verif)] = n3Witness{ok: s.ok, acc: hash.Hash160(s.verif), checkData: true, dataHash: h, bad: s.bad}
 	s.g.prov[string(invoc)] = sigProv{key: bytes.Clone(s.verif), scheme: refs.SignatureScheme_N3, data: bytes.Clone(data)}
 	return invoc, nil
 }
@@ -489,12 +490,15 @@ func (g *c33Gen) genHonest() {
 				if entry != "n3" {
 					g.emit(g.honest(n, legacy, true), entry, false, "none", kit.M{"how": "honest chain with N3 witnesses, non-N3 entry"})
 				} else {
-					// a witness the chain refuses
-					req := g.honest(n, legacy, false)
-					v := make([]byte, 30)
-					g.r.Read(v)
-					g.resignWith(req, n3Signer{g: g, verif: v, ok: false})
-					g.emitRefusedN3(req, entry)
+					// a witness the chain refuses, in every shape a refusal can take (HALT/FALSE, FAULT with a
+					// truthy stack item, wrong stack size, non-boolean zero)
+					for _, mode := range n3BadModes {
+						req := g.honest(n, legacy, false)
+						v := make([]byte, 30)
+						g.r.Read(v)
+						g.resignWith(req, n3Signer{g: g, verif: v, ok: false, bad: mode})
+						g.emitRefusedN3(req, entry, mode)
+					}
 				}
 			}
 		}
@@ -510,7 +514,7 @@ func (g *c33Gen) resignWith(req *protoobject.GetRequest, s neofscrypto.Signer) {
 	must(err)
 }
 
-func (g *c33Gen) emitRefusedN3(req *protoobject.GetRequest, entry string) {
+func (g *c33Gen) emitRefusedN3(req *protoobject.GetRequest, entry string, mode string) {
 	// the chain says "false" for this witness: provenance says made-over-these-bytes, but it is not a
 	// valid signature; drop its provenance so that the slot is classified "bad"
 	for _, v := range layersOf(req)[:1] {
@@ -520,7 +524,7 @@ func (g *c33Gen) emitRefusedN3(req *protoobject.GetRequest, entry string) {
 			}
 		}
 	}
-	g.emit(req, entry, false, "none", kit.M{"how": "N3 witness refused by the chain"})
+	g.emit(req, entry, false, "none", kit.M{"how": "N3 witness refused by the chain", "chain_answer": mode})
 }
 
 func (g *c33Gen) genScripts(num int) {
